@@ -11,8 +11,8 @@ from .loader import AnalysisError, Repo
 
 VERIF = os.path.dirname(os.path.dirname(os.path.abspath(__file__)))
 KNOWN_FILE = os.path.join(VERIF, "known_findings.json")
-EVIDENCE_DIR = os.path.join(VERIF, "evidence")
-OUT_DIR = os.path.join(VERIF, "out")
+EVIDENCE_DIR = os.environ.get("BSA_EVIDENCE_DIR") or os.path.join(VERIF, "evidence")  # overridden only by tools/ that analyse scratch copies
+OUT_DIR = os.environ.get("BSA_OUT_DIR") or os.path.join(VERIF, "out")
 
 
 def load_known() -> list[dict]:
